@@ -61,5 +61,5 @@ for (line, tag), i, m in bad[:show]:
     print(" impl : …%s" % (i or "None")[max(0, k - 150):k + 200])
     print(" model: …%s" % (m or "None")[max(0, k - 150):k + 200])
 if bad:
-    with open("/tmp/wp-tb/bad.cases", "w") as f:
+    with open(os.path.join(vlib.WORK, "tbdiff_bad.cases"), "w") as f:
         for (line, tag), i, m in bad: f.write(line + "\n")
